@@ -18,6 +18,9 @@ enum M {
     S { s: String },
     #[serde(rename = "a.T")]
     T { n: u32 },
+    /// a stream whose last item carries no `continues` flag at all (absent = last reply)
+    #[serde(rename = "a.U")]
+    U { n: u32 },
 }
 
 #[derive(Debug, Deserialize, Serialize, PartialEq, Clone)]
@@ -128,6 +131,11 @@ impl zlink_core::Service for Svc {
                 let items: Vec<Reply<P>> = (0..n).map(|i| Reply::new(Some(P { a: 1000 + i })).set_continues(Some(i + 1 < n))).collect();
                 MethodReply::Multi(futures_util::stream::iter(items))
             }
+            M::U { n } => {
+                let n = *n;
+                let items: Vec<Reply<P>> = (0..n).map(|i| { let r = Reply::new(Some(P { a: 2000 + i })); if i + 1 < n { r.set_continues(Some(true)) } else { r } }).collect();
+                MethodReply::Multi(futures_util::stream::iter(items))
+            }
         }
     }
 }
@@ -149,6 +157,10 @@ fn oracle_server(wire: &[u8]) -> Vec<String> {
             M::S { .. } => r#"{"error":"a.Bad","parameters":{"code":7}}"#.to_string(),
             M::T { n } => {
                 for i in 0..*n { out.push(format!(r#"{{"parameters":{{"a":{}}},"continues":{}}}"#, 1000 + i, i + 1 < *n)); }
+                continue;
+            }
+            M::U { n } => {
+                for i in 0..*n { out.push(if i + 1 < *n { format!(r#"{{"parameters":{{"a":{}}},"continues":true}}"#, 2000 + i) } else { format!(r#"{{"parameters":{{"a":{}}}}}"#, 2000 + i) }); }
                 continue;
             }
         });
@@ -443,6 +455,61 @@ fn search_send(seed: u64, budget: usize) -> Option<Value> {
 }
 
 // ---------------------------------------------------------------------------------------------
+// C05 (call envelope): encode / decode of Call<M> against the schema, on the real code through serde_json.
+// m: 0 = B{a}, 1 = C, 2 = S{s}, 3 = T{n};  flags: Some(true) / Some(false) / None (absent) per flag for decoding;
+// order: a permutation seed for the members of the object handed to the decoder
+fn call_method(m: u8, x: u32) -> M {
+    match m { 0 => M::B { a: x }, 1 => M::C, 2 => M::S { s: format!("s{x}") }, _ => M::T { n: x } }
+}
+fn run_call(m: u8, x: u32, flags: [Option<bool>; 3], order: u64) -> Option<String> {
+    let names = ["oneway", "more", "upgrade"];
+    let method = call_method(m, x);
+    // (1) encoding: ONE object = the method's own members + each flag exactly when set, as `true`
+    let set = |k: usize| flags[k] == Some(true);
+    let c = Call::new(method.clone()).set_oneway(set(0)).set_more(set(1)).set_upgrade(set(2));
+    let got = match serde_json::to_value(&c) { Ok(v) => v, Err(e) => return Some(format!("encoding failed: {e}")) };
+    let mut want = serde_json::to_value(&method).unwrap();
+    for k in 0..3 { if set(k) { want.as_object_mut().unwrap().insert(names[k].to_string(), Value::Bool(true)); } }
+    if got != want { return Some(format!("encoding: got {got} want {want}")); }
+    let text = serde_json::to_string(&c).unwrap();
+    let members: Vec<String> = want.as_object().unwrap().keys().cloned().collect();
+    if text.matches("\"oneway\"").count() + text.matches("\"more\"").count() + text.matches("\"upgrade\"").count() != (0..3).filter(|k| set(*k)).count() {
+        return Some(format!("encoding writes a flag member more than once or when unset: {text}"));
+    }
+    let _ = members;
+    // (2) decoding: flags in any position, explicit false allowed, absent = false, hidden from the method type
+    let mut entries: Vec<(String, Value)> = serde_json::to_value(&method).unwrap().as_object().unwrap().iter().map(|(k, v)| (k.clone(), v.clone())).collect();
+    for k in 0..3 { if let Some(b) = flags[k] { entries.push((names[k].to_string(), Value::Bool(b))); } }
+    let mut o = order;
+    for i in (1..entries.len()).rev() { let j = (o % (i as u64 + 1)) as usize; o /= i as u64 + 1; entries.swap(i, j); }
+    let doc = format!("{{{}}}", entries.iter().map(|(k, v)| format!("{}:{}", serde_json::to_string(k).unwrap(), v)).collect::<Vec<_>>().join(","));
+    let d: Call<M> = match serde_json::from_str(&doc) { Ok(d) => d, Err(e) => return Some(format!("decoding {doc} failed: {e}")) };
+    let wantf = [flags[0].unwrap_or(false), flags[1].unwrap_or(false), flags[2].unwrap_or(false)];
+    if *d.method() != method || [d.oneway(), d.more(), d.upgrade()] != wantf {
+        return Some(format!("decoding {doc}: got method {:?} flags {:?}, want {:?} {:?}", d.method(), [d.oneway(), d.more(), d.upgrade()], method, wantf));
+    }
+    // (3) round trip
+    let back: Call<M> = match serde_json::from_str(&text) { Ok(d) => d, Err(e) => return Some(format!("round trip of {text} failed: {e}")) };
+    if *back.method() != method || [back.oneway(), back.more(), back.upgrade()] != [set(0), set(1), set(2)] {
+        return Some(format!("round trip of {text}: got {:?} {:?}", back.method(), [back.oneway(), back.more(), back.upgrade()]));
+    }
+    None
+}
+fn search_call(seed: u64, budget: usize) -> Option<Value> {
+    let mut rng = Rng(seed.wrapping_mul(0x9E3779B97F4A7C15) | 1);
+    let f = |r: usize| match r { 0 => None, 1 => Some(false), _ => Some(true) };
+    for _ in 0..budget {
+        let (m, x) = (rng.below(4) as u8, rng.below(1000) as u32);
+        let flags = [f(rng.below(3)), f(rng.below(3)), f(rng.below(3))];
+        let order = rng.next();
+        if let Some(why) = run_call(m, x, flags, order) {
+            return Some(json!({"kind":"call","m":m,"x":x,"flags":flags,"order":order,"why":why}));
+        }
+    }
+    None
+}
+
+// ---------------------------------------------------------------------------------------------
 // C18: fairness.  Every connection has all its calls available from the start (one pipelined burst each);
 // call `a` = 100 * connection + sequence number.  Expected: no connection is served twice in a row while another
 // connection still has an unserved call (they have all been waiting the whole time).
@@ -497,21 +564,29 @@ fn run_faults(wires: &[Vec<u8>], fail_write_at: &[Option<usize>], cuts: &[usize]
     let server = zlink_core::Server::new(ScriptedListener { conns }, Svc);
     let mut fut = Box::pin(server.run());
     let mut idle = 0;
+    let mut panicked = false;
     for _ in 0..20_000 {
         let before: usize = scripts.iter().map(|s| { let s = s.borrow(); s.log.len() + s.consumed + s.writes }).sum();
-        if let Poll::Ready(_) = poll_once(fut.as_mut()) { break; }
+        // a panic inside Server::run takes the whole server down: the strongest failure of isolation
+        match std::panic::catch_unwind(std::panic::AssertUnwindSafe(|| poll_once(fut.as_mut()))) {
+            Ok(Poll::Ready(_)) => break,
+            Ok(Poll::Pending) => {}
+            Err(_) => { panicked = true; break; }
+        }
         let after: usize = scripts.iter().map(|s| { let s = s.borrow(); s.log.len() + s.consumed + s.writes }).sum();
         if before == after { idle += 1; if idle > 12 { break; } } else { idle = 0; }
     }
+    if panicked { std::mem::forget(fut); }
     let expected: Vec<Vec<String>> = wires.iter().zip(fail_write_at).map(|(w, f)| {
         let mut e = oracle_server(w);
         if let Some(k) = f { e.truncate(*k); }
         e
     }).collect();
-    let got = scripts.iter().map(|s| {
+    let mut got: Vec<Vec<String>> = scripts.iter().map(|s| {
         let flat: Vec<u8> = s.borrow().log.iter().flatten().copied().collect();
         frames_of(&flat).iter().map(|f| String::from_utf8_lossy(f).to_string()).collect()
     }).collect();
+    if panicked { for g in got.iter_mut() { g.push("<Server::run PANICKED: every connection is lost>".to_string()); } }
     (expected, got)
 }
 /// a healthy connection (only decodable calls, ends on a frame boundary, no failing write) must get exactly its
@@ -533,6 +608,7 @@ fn search_faults(seed: u64, budget: usize) -> Option<Value> {
         r#"{"method":"a.B","parameters":{"a":5},"oneway":true}"#, r#"{"method":"a.S","parameters":{"s":"x"}}"#,
         r#"{"method":"a.T","parameters":{"n":2},"more":true}"#, r#"{"method":"a.T","parameters":{"n":0},"more":true}"#,
         r#"{"method":"a.T","parameters":{"n":3},"more":true}"#, r#"{"method":"a.T","parameters":{"n":2},"oneway":true}"#,
+        r#"{"method":"a.U","parameters":{"n":2},"more":true}"#, r#"{"method":"a.U","parameters":{"n":1},"more":true}"#,
         r#"{"method":"a.Nope"}"#, r#"{"method":"a.B","parameters":{"a":"wrong"}}"#, "garbage", r#"{"method":"a.B","parameters":{"a":2}} "#,
     ];
     for _ in 0..budget {
@@ -543,7 +619,7 @@ fn search_faults(seed: u64, budget: usize) -> Option<Value> {
             let mut w = Vec::new();
             for _ in 0..rng.below(6) {
                 // faults are rarer than good calls
-                let k = if rng.below(5) == 0 { 9 + rng.below(4) } else { rng.below(9) };
+                let k = if rng.below(5) == 0 { 11 + rng.below(4) } else { rng.below(11) };
                 w.extend_from_slice(calls[k].as_bytes());
                 w.push(0);
             }
@@ -636,6 +712,7 @@ fn main() {
             "send" => search_send(seed, budget / 4),
             "fair" => search_fair(seed, budget / 40),
             "faults" => search_faults(seed, budget / 10),
+            "call" => search_call(seed, budget / 4),
             _ => panic!("unknown kind"),
         };
         match found {
@@ -669,6 +746,13 @@ fn main() {
                 std::process::exit(1);
             }
             println!("REPLAY: passes on the real code");
+        }
+        Some("call") => {
+            let flags: Vec<Option<bool>> = w["flags"].as_array().unwrap().iter().map(|x| x.as_bool()).collect();
+            match run_call(w["m"].as_u64().unwrap() as u8, w["x"].as_u64().unwrap() as u32, [flags[0], flags[1], flags[2]], w["order"].as_u64().unwrap()) {
+                Some(why) => { println!("{why}\nREPLAY: FAILS on the real code"); std::process::exit(1); }
+                None => println!("REPLAY: passes on the real code"),
+            }
         }
         Some("faults") => {
             let wires: Vec<Vec<u8>> = w["wires_hex"].as_array().unwrap().iter().map(|x| unhex(x.as_str().unwrap())).collect();
